@@ -1778,3 +1778,23 @@ def meshgrid(*tensors, indexing="ij"):
 
 def flip(x, dims):
     return x.flip(dims)
+
+
+# extension for the regularisers (C17): in-place abs / pow (abs of a symbolic value is an opaque node)
+def _abs_(self):
+    def f(v):
+        s = v._sign()
+        return fn("abs", v) if s is None else (v if s >= 0 else -v)
+    self.a[...] = _un(f)(self.a)
+    return self
+
+
+def _pow_(self, n):
+    self.a[...] = (self ** n).a
+    return self
+
+
+if not hasattr(Tensor, "abs_"):
+    Tensor.abs_ = _abs_
+if not hasattr(Tensor, "pow_"):
+    Tensor.pow_ = _pow_
